@@ -144,7 +144,12 @@ class KrylovBased:
         )
         if self.E_shift is not None:
             if isinstance(self.H, OrthogonalNpcLinearOperator):
-                self.H.orig_operator = ShiftNpcLinearOperator(self.H.orig_operator, self.E_shift)
+                # don't modify the operator given by the caller: wrap a shifted copy
+                shifted = ShiftNpcLinearOperator(self.H.orig_operator, self.E_shift)
+                if len(self.H.ortho_vecs) > 0:
+                    self.H = OrthogonalNpcLinearOperator(shifted, self.H.ortho_vecs)
+                else:
+                    self.H = shifted
             else:
                 self.H = ShiftNpcLinearOperator(self.H, self.E_shift)
         self._cache = []
